@@ -309,7 +309,8 @@ MANIFEST_TEXT["C15"] = dict(
 # --------------------------------------------------------------------------------------------
 # C05 and the Map (key-level) parts of the generic properties
 # --------------------------------------------------------------------------------------------
-MAP_PROFILES = [dict(name="map_corr", quick=900, thorough=20000), dict(name="map_scenario", quick=900, thorough=20000), dict(name="map_overtake", quick=600, thorough=15000)]
+MAP_PROFILES = [dict(name="map_corr", quick=900, thorough=20000), dict(name="map_scenario", quick=900, thorough=20000), dict(name="map_overtake", quick=600, thorough=15000),
+                dict(name="map_exhaustive", quick=4, thorough=4, exhaustive="all scripts of length 4 over 2 replicas x keys {0,1} for Map<_,MVReg> and Map<_,Orswot>: updates, key removes (get / read_ctx contexts), nested removes, per-author-order deliveries, merges; seed-independent")]
 MAP_KEY_FIELDS = ["gk0", "gk1", "gk2", "keys", "len", "isempty"]
 
 PROPS["C05"] = dict(
